@@ -415,13 +415,55 @@ def _cut_records(check, tier, share, tag):
     return recs
 
 
+MOL_CONSTS = {"quick": dict(MaxAtoms=3, Elements="ElsQ", Orders="Ord123"),
+              "thorough": dict(MaxAtoms=4, Elements="ElsT", Orders="Ord12")}
+
+
+def tlc_molecules(check, tier, share, tag):
+    """every (molecule, partition) pair of MolMC.tla, cut along the partition and rendered (seeded renderings)"""
+    import networkx as nx
+    from .. import molgen
+    rng = common.rng(tag)
+    consts = MOL_CONSTS[tier]
+    out, r = mc.run(check, "MolMC", "mol_" + tier, consts, ["SimpleAndFeasible"], dedupe=lambda p: str(p))
+    if tier == "thorough":
+        extra, r2 = mc.run(check, "MolMC", "mol_small", MOL_CONSTS["quick"], ["SimpleAndFeasible"], dedupe=lambda p: str(p))
+        out = extra + out
+    recs = []
+    nskip = 0
+    for p in out:
+        g = nx.Graph()
+        for i, el in enumerate(p["els"]):
+            g.add_node(i, element=el, charge=0, aromatic=False, hcount=0)
+        for a, b, o in p["bonds"]:
+            g.add_edge(a - 1, b - 1, order=o)
+        if not perceived_ok(g):
+            nskip += 1
+            continue
+        block = {i: p["block"][i] - 1 for i in range(p["n"])}
+        cfg = molgen.make_cut_config(g, block, rng, share=share)
+        if cfg is None:
+            nskip += 1
+            continue
+        rec = cut_record(g, cfg, legacy=True)
+        rec["smi"] = "MolMC:" + ",".join(p["els"])
+        recs.append(rec)
+    check.extra["tlc_enumerated_molecule_partitions"] = len(out)
+    check.extra["tlc_enumerated_skipped_by_perception"] = nskip
+    check.skipped += nskip
+    return recs
+
+
 def run_c01(tier):
     check = Check("C01", tier=tier)
-    check.rule = ("catalogue (40 molecules: chains, branches, rings, aromatics, charges, S/P, halogens) and seeded random "
+    check.rule = ("every molecule of <= 3 heavy atoms over C N O Cl with valence-feasible bond orders 1-3 x every partition into "
+                  "connected blocks, enumerated by TLC (MolMC.tla); catalogue (44 molecules: chains, branches, rings, aromatics, charges, S/P, halogens) and seeded random "
                   "molecules <= 12 heavy atoms x partitions into connected blocks (all partitions for <= 4 atoms) x descriptor "
                   "kinds ($x/$x, >x/<x, unique labels) x random SMILES renderings (start atom, branch order, ring digits incl. "
                   "%nn, descriptor before/after ring digits) x base-graph numbering; non-trivial = at least one cut bond")
     recs = _cut_records(check, tier, 0.0, "c01")
+    recs += tlc_molecules(check, tier, 0.0, "c01mc")
+    check.exhaustive = True
     verdicts = validate_with(check, recs)
     judge(check, "C01", recs, verdicts, nontrivial=lambda r, v: r.get("ncuts", 0) > 0)
     check.extra["cut_configs"] = len(recs)
@@ -436,6 +478,7 @@ def run_c10(tier):
                   "several per fragment, atoms shared by three fragments, chains, aromatic atoms, atoms that also carry "
                   "ordinary descriptors); non-trivial = at least one shared atom")
     recs = _cut_records(check, tier, 0.6, "c10")
+    recs += tlc_molecules(check, tier, 0.7, "c10mc")
     verdicts = validate_with(check, recs)
     judge(check, "C10", recs, verdicts, nontrivial=lambda r, v: r.get("nshared", 0) > 0)
     check.extra["shared_configs"] = sum(1 for r in recs if r.get("nshared", 0) > 0)
@@ -528,7 +571,8 @@ def run_c12_structural(check, tier):
 
 
 def run_c20_resolver(check, tier):
-    recs = config_records(check, tier)
+    cfgs = [c for c in enumerate_configs(check, tier) if any(t["k"] == "N" and t["v"] == "V" for t in c[0])]
+    recs = pmap(_one_config, [(i, b, l, g, False) for i, (b, l, g) in enumerate(cfgs)])
     verdicts = validate_with(check, recs)
     judge(check, "C20", recs, verdicts, only=lambda r, v: v.get("expected") != "ok",
           nontrivial=lambda r, v: True)
